@@ -227,7 +227,9 @@ func init() {
 			}
 			progs := append([]string{}, gen.Small()...)
 			// statements that end in a name and are followed, without ';', by a statement that starts with a parenthesis
-			progs = append(progs, "def b { x = 1 y = x ( z = x + 1 ) w = y ( 2 ) }", "def b { v = x ( 3 ) ( 4 ) }", "var x = 1 def b { y = x ( x = 2 ) }")
+			progs = append(progs, "def b { x = 1 y = x ( z = x + 1 ) w = y ( 2 ) }", "def b { v = x ( 3 ) ( 4 ) }", "var x = 1 def b { y = x ( x = 2 ) }",
+				// literals directly followed by identifiers that start with an underscore
+				"def b { x = 1 _y = 2 z = 0x1F _ = 3 w = \"s\" _y = 2.5 _z = 1e3 _q = 4 }")
 			// huge layout: 70000 blanks / tabs / CRs between two tokens, a 70000-byte comment (a layout is never "too long")
 			{
 				canon := "var a = 1 print a + 2 def b { x = a }"
